@@ -516,6 +516,63 @@ theorem commit_at_boundary (t : Tree K V) (wf : t.WF) :
   · rw [hf.2.2.1, savedPrefixLen_append_save]
     exact (List.take_of_length_le (by simp)).symm
 
+/-! ### insertion sort -/
+
+theorem insertKey_perm (lt : K → K → Bool) (k : K) (l : List K) :
+    (insertKey lt k l).Perm (k :: l) := by
+  induction l with
+  | nil => exact List.Perm.refl _
+  | cons h t ih =>
+    unfold insertKey
+    split
+    · exact List.Perm.refl _
+    · exact (List.Perm.cons h ih).trans (List.Perm.swap k h t)
+
+theorem sortKeys_perm (lt : K → K → Bool) (l : List K) : (sortKeys lt l).Perm l := by
+  induction l with
+  | nil => exact List.Perm.refl _
+  | cons h t ih =>
+    show (insertKey lt h (sortKeys lt t)).Perm (h :: t)
+    exact (insertKey_perm lt h _).trans (List.Perm.cons h ih)
+
+theorem insertKey_sorted (lt : K → K → Bool)
+    (irrefl : ∀ a, lt a a = false)
+    (trans : ∀ a b c, lt a b = true → lt b c = true → lt a c = true)
+    (k : K) (l : List K) (hl : l.Pairwise (fun a b => lt b a = false)) :
+    (insertKey lt k l).Pairwise (fun a b => lt b a = false) := by
+  induction l with
+  | nil => simp [insertKey]
+  | cons h t ih =>
+    have hl' := List.pairwise_cons.mp hl
+    unfold insertKey
+    split
+    · next hkh =>
+      refine List.pairwise_cons.mpr ⟨?_, hl⟩
+      intro b hb
+      rcases List.mem_cons.mp hb with rfl | hb
+      · cases hbk : lt b k with
+        | false => rfl
+        | true => have := trans _ _ _ hkh hbk; rw [irrefl] at this; cases this
+      · cases hbk : lt b k with
+        | false => rfl
+        | true =>
+          have := trans _ _ _ hbk hkh
+          rw [hl'.1 b hb] at this; cases this
+    · next hkh =>
+      refine List.pairwise_cons.mpr ⟨?_, ih hl'.2⟩
+      intro b hb
+      rcases List.mem_cons.mp ((insertKey_perm lt k t).subset hb) with rfl | hb
+      · simpa using hkh
+      · exact hl'.1 b hb
+
+theorem sortKeys_sorted (lt : K → K → Bool)
+    (irrefl : ∀ a, lt a a = false)
+    (trans : ∀ a b c, lt a b = true → lt b c = true → lt a c = true)
+    (l : List K) : (sortKeys lt l).Pairwise (fun a b => lt b a = false) := by
+  induction l with
+  | nil => exact List.Pairwise.nil
+  | cons h t ih => exact insertKey_sorted lt irrefl trans h _ ih
+
 /-! ### crash -/
 
 theorem crash_eq_of (boot : Tree K V → Vol C V) (n n' : Node K V C T H D)
